@@ -121,6 +121,9 @@ Proof.
   intros HI Hco Hs Hout Hrel Hlen. unfold apply_op. change (Ascii.eqb "=" "=") with true. cbv iota.
   destruct d as [v|col].
   - destruct Hrel as [Ha [Hb Hc]]. rewrite Ha, Hc. cbn [bind].
+    assert (Hxyz : existsb (str_eqb out_name) (map s_ ["x"; "y"; "z"]%string) = false) by reflexivity. rewrite Hxyz.
+    assert (Hlk : lookup (dico t) out_name = None) by (unfold has_af in Hout; destruct (lookup (dico t) out_name); [discriminate | reflexivity]).
+    rewrite Hlk.
     destruct (create_new_ok t out_name v Hout Hs) as [t1 Hcr]. rewrite Hcr. cbn [bind].
     destruct (create_new_spec t out_name (IScalar v) t1 HI Hout Hcr) as [HI1 [Hn [Hsz [Hg [Hx [Hy [Hz [Ht Hfr]]]]]]]].
     exists t1. split; [reflexivity|]. split; [exact HI1|]. split; [exact Hn|]. split; [exact Hsz|]. split; [|repeat split; assumption].
@@ -172,7 +175,8 @@ Theorem evaluate_correct e t d :
   wf e -> wfe t e -> (0 < minclass e)%nat -> clean (print e) = true -> sem t e = Ok d ->
   exists t2, evaluate t (print e) = Ok (t2, Some (dcol (Table.size t) d))
     /\ (forall m, has_af t m = true -> get_af t2 m = get_af t m)
-    /\ xs t2 = xs t /\ ys t2 = ys t /\ zs t2 = zs t /\ ts t2 = ts t.
+    /\ xs t2 = xs t /\ ys t2 = ys t /\ zs t2 = zs t /\ ts t2 = ts t
+    /\ Inv t2 /\ (exists tmps, names t2 = names t ++ tmps /\ forall m, In m tmps -> exists j, m = temp_name j).
 Proof.
   intros HI Hco Hs Hfresh Hout Hwf Hwfe Hmin Hclean Hsem.
   assert (Hsp : forallb (fun c => negb (Ascii.eqb c " ")) (print e) = true).
@@ -212,12 +216,25 @@ Proof.
   assert (exists t2, remove_af t1 out_name = Ok t2) as [t2 Hrm].
   { unfold remove_af. rewrite Hhas1, Hl1. cbn [negb]. eexists. reflexivity. }
   rewrite Hrm. cbn [bind].
-  destruct (remove_spec t1 out_name i t2 HI1 Hl1 Hrm) as [_ [_ [_ [Hx2 [Hy2 [Hz2 [Ht2 [_ Hfr2]]]]]]]].
+  destruct (remove_spec t1 out_name i t2 HI1 Hl1 Hrm) as [HI2 [Hn2 [_ [Hx2 [Hy2 [Hz2 [Ht2 [_ Hfr2]]]]]]]].
   destruct (e_coords _ _ _ _ Hext) as [Hx' [Hy' [Hz' Ht']]].
   exists t2. split; [rewrite Hsz'; reflexivity|]. split.
   - intros m Hm. assert (Hne : m <> out_name) by (intros ->; congruence).
     rewrite (Hfr2 m Hne), (Hfr1 m Hne). apply (e_old _ _ _ _ Hext m Hm).
-  - repeat split; congruence.
+  - split; [congruence|]. split; [congruence|]. split; [congruence|]. split; [congruence|]. split; [exact HI2|].
+    destruct (e_names _ _ _ _ Hext) as [tmps [Hnm Htm]]. exists tmps. split.
+    + rewrite Hn2, Hn1.
+      assert (Hnotin : ~ In out_name (names t')) by (intros Hin; assert (has_af t' out_name = true) by (apply has_af_names; left; exact Hin); congruence).
+      rewrite filter_app. cbn [filter]. unfold keep at 2. 
+      assert (E : str_eqb out_name out_name = true) by (unfold str_eqb; destruct (list_eq_dec ascii_dec out_name out_name); [reflexivity | congruence]).
+      rewrite E. cbn [negb]. rewrite app_nil_r.
+      assert (F : forall l, ~ In out_name l -> filter (keep out_name) l = l).
+      { induction l as [|a l IHl]; intros Hl; [reflexivity|]. cbn [filter]. unfold keep at 1.
+        destruct (str_eqb a out_name) eqn:Ea.
+        - exfalso. apply Hl. left. unfold str_eqb in Ea. destruct (list_eq_dec ascii_dec a out_name); [assumption | discriminate].
+        - cbn [negb]. f_equal. apply IHl. intros H. apply Hl. right. exact H. }
+      rewrite (F _ Hnotin). exact Hnm.
+    + intros m Hm. destruct (Htm m Hm) as [j [_ Hj]]. exists j. exact Hj.
 Qed.
 Print Assumptions evaluate_correct.
 
@@ -287,5 +304,6 @@ Corollary evaluate_correct_spaced e t d s :
   wf e -> wfe t e -> (0 < minclass e)%nat -> clean (print e) = true -> sem t e = Ok d ->
   exists t2, evaluate t s = Ok (t2, Some (dcol (Table.size t) d))
     /\ (forall m, has_af t m = true -> get_af t2 m = get_af t m)
-    /\ xs t2 = xs t /\ ys t2 = ys t /\ zs t2 = zs t /\ ts t2 = ts t.
+    /\ xs t2 = xs t /\ ys t2 = ys t /\ zs t2 = zs t /\ ts t2 = ts t
+    /\ Inv t2 /\ (exists tmps, names t2 = names t ++ tmps /\ forall m, In m tmps -> exists j, m = temp_name j).
 Proof. intros Hs. rewrite evaluate_strip, Hs. apply evaluate_correct. Qed.
